@@ -147,6 +147,9 @@ func mutations(r *rand.Rand, toks []string, all bool) []c09Str {
 	return out
 }
 
+// c09Invisibles are character sequences that look like nothing: none of them is a character of the expression language
+var c09Invisibles = []string{"\xef\xbb\xbf", "\xef\xbb", "\ufeff ", "\u200b", "\u00a0", "\x00", "\u00ad", "\xff\xfe", "\u2060", "\x1b[0m"}
+
 var c09Lengths = []int{0, 1, 2, 3, 4, 5, 8, 13, 16, 31, 32, 33, 63, 64, 255, 256, 1023, 4095, 4096}
 
 func byteStrings(r *rand.Rand) []c09Str {
@@ -281,6 +284,14 @@ func scaledSentences() (conds []c09Str, cvals val.Item, upds []c09Str, uvals val
 		"SET l[1] = :one REMOVE l[1]", "SET l2[5] = :one, l2[4] = :five", "SET l2[1] = :one, l2[1] = :five", "REMOVE l2[0] SET cp = list_append(l2, l2)", "REMOVE lnul[0], lnul[2] SET cp = lnul",
 		"REMOVE l[2][0] SET l[2] = l[2]", "REMOVE l[0] DELETE ss l"} {
 		upds = append(upds, c09Str{u, "hostile-list-position"})
+	}
+	// update expressions that are refused for what they ARE, whatever the item holds: a function with the wrong number of
+	// operands, a function of the condition language, something that is no path as the target of an action. Behind a
+	// condition that is false they are refused all the same (checkUpdate sends them that way too)
+	for _, u := range []string{"SET a = if_not_exists(a, :one, :one)", "SET a = if_not_exists(a)", "SET l = list_append(l)", "SET l = list_append(l, :biglist, :biglist)", "SET a = size(l)",
+		"SET a = attribute_exists(l)", "SET a = contains(l, :one)", "SET a = begins_with(s, :str)", "SET a + a = :one", "SET size(a) = :one", "SET if_not_exists(a, :one) = :one", "REMOVE size(a)",
+		"REMOVE a + a", "ADD size(a) :one", "SET a = :one REMOVE if_not_exists(a, :one)", "SET a = nosuchfunction(a)", "SET a = if_not_exists(a, list_append(l))"} {
+		upds = append(upds, c09Str{u, "static-update-defect"})
 	}
 	upds = append(upds, c09Str{"ADD ss :bigset", "scaled-update"}, c09Str{"DELETE ss :bigset", "scaled-update"}, c09Str{"SET l = list_append(l, :biglist)", "scaled-update"},
 		c09Str{"SET l = list_append(:biglist, l)", "scaled-update"}, c09Str{"SET nu = :biglist", "scaled-update"}, c09Str{"SET l[150] = :one", "scaled-update"}, c09Str{"REMOVE l[150]", "scaled-update"},
@@ -553,7 +564,7 @@ func (p *c09) checkUpdate(x *res, s c09Str, names map[string]string, values val.
 				x.r.Counters["updates_behind_a_false_condition"]++
 				if hid.Class == adapt.ClsRuntime {
 					x.viol("client-runtime-panic", hid.Site, fmt.Sprintf("[%s] UpdateItem %q with a false condition: runtime panic at %s: %s", adapter, s.s, hid.Site, hid.Msg), w2)
-				} else if !sentence && (hid.Class == adapt.ClsCondFailed || hid.Class == adapt.ClsOK) {
+				} else if (!sentence || s.kind == "static-update-defect") && (hid.Class == adapt.ClsCondFailed || hid.Class == adapt.ClsOK) {
 					x.viol("client-accepts-non-sentence", "update-behind-a-false-condition", fmt.Sprintf("[%s] UpdateItem %q (%s), which is not a sentence, with a condition that is false: answered %s - the malformed expression went unnoticed", adapter, s.s, s.kind, hid.Class), map[string]interface{}{"adapter": adapter, "expression": s.s, "derived_by": s.kind, "names": n2, "values": v2, "update": hid})
 				}
 			}
@@ -576,6 +587,12 @@ func (p *c09) RunCase(ctx *runner.Ctx) runner.CaseResult {
 			values = val.Item{}
 		}
 		p.checkCond(x, c09Str{s, "valid"}, names, values, ctx.Case%16 == 0, ctx)
+		// the valid sentence behind / in front of characters an editor does not show (byte order mark, zero-width and
+		// no-break spaces, NUL, a soft hyphen): unknown characters, wherever they stand
+		for ii, inv := range c09Invisibles {
+			p.checkCond(x, c09Str{inv + s, "invisible-prefix"}, names, values, (ii+ctx.Case)%7 == 0, ctx)
+			p.checkCond(x, c09Str{s + inv, "invisible-suffix"}, names, values, false, ctx)
+		}
 		toks := tokenize(s)
 		for i, m := range mutations(r, toks, all) {
 			p.checkCond(x, m, names, values, i%23 == 0, ctx)
@@ -593,6 +610,10 @@ func (p *c09) RunCase(ctx *runner.Ctx) runner.CaseResult {
 		names := map[string]string{}
 		s := cs.U.Render(names, refmodel.RenderOpts{})
 		p.checkUpdate(x, c09Str{s, "valid"}, names, cs.Values, ctx.Case%16 == 2, ctx)
+		for ii, inv := range c09Invisibles {
+			p.checkUpdate(x, c09Str{inv + s, "invisible-prefix"}, names, cs.Values, (ii+ctx.Case)%7 == 0, ctx)
+			p.checkUpdate(x, c09Str{s + inv, "invisible-suffix"}, names, cs.Values, false, ctx)
+		}
 		toks := tokenize(s)
 		for i, m := range mutations(r, toks, all) {
 			p.checkUpdate(x, m, names, cs.Values, i%23 == 0, ctx)
